@@ -175,6 +175,11 @@ static std::string step(const std::vector<std::string>& w) {
     theta_a_not_b anb(strtoull(w[5].c_str(), nullptr, 10));
     bool ord = w[4] == "1";
     Obj n;
+    bool mv = w.size() > 6 && w[6] == "mv";
+    if (mv && a.cmp) {   // A passed as an rvalue (its entries are moved out of a temporary copy)
+      with_operand(b, [&](const auto& sb) { compact_theta_sketch tmp(*a.cmp);
+        n.cmp.reset(new compact_theta_sketch(anb.compute(std::move(tmp), sb, ord))); return 0; });
+    } else
     with_operand(a, [&](const auto& sa) { return with_operand(b, [&](const auto& sb) {
       n.cmp.reset(new compact_theta_sketch(anb.compute(sa, sb, ord))); return 0; }); });
     int nid = atoi(w[3].c_str());
